@@ -448,11 +448,12 @@ class Typer:
   iterated sequence for loop / comprehension targets), and a narrowing test is
   applied only while it is fresh (see _Freshness)."""
 
-  def __init__(self, model, mod, env, fn=None):
+  def __init__(self, model, mod, env, fn=None, inter=None):
     self.model = model
     self.mod = mod
     self.env = env  # parameter name -> typeset
     self.fn = fn
+    self.inter = inter    # _Inter: types calls of helper methods of the class
     self.rd = ReachingDefs(mod, fn) if fn is not None else None
     self._freshness = None
     self._depth = 0
@@ -586,6 +587,12 @@ class Typer:
       if isinstance(expr.func, ast.Name) and expr.func.id in ("repr", "str") \
           and self._is_builtin(expr.func):
         return frozenset(["str"])
+      h = self.inter.helper_of(expr, self.fn) if self.inter is not None and self.fn else None
+      if h is not None:
+        # a helper method of the class: the join of what it can return for
+        # arguments of these static types
+        _, penv = self.inter.arg_types(self, expr, h, narrow)
+        return self.inter.analyse(h, penv).ret_type()
     if isinstance(expr, (ast.List, ast.Tuple)):
       inner = frozenset()
       for e in expr.elts:
@@ -842,20 +849,6 @@ def _chain(mod, rd, expr):
   raise AnalysisError("chain: too long")
 
 
-def _is_parse_of(mod, rd, base, pname):
-  """base is cst.parse_module(<parameter pname>)."""
-  if base[0] != "call":
-    return False
-  c = base[1]
-  d = dotted(c.func) or ""
-  head = d.rsplit(".", 1)[0] if "." in d else ""
-  if d.split(".")[-1] != "parse_module" or mod.imports.get(head) != "libcst":
-    return False
-  if len(c.args) != 1 or c.keywords or not isinstance(c.args[0], ast.Name):
-    return False
-  return rd.defs_of(c.args[0]) == {rd.params.get(pname)}
-
-
 class _M:
   pass
 
@@ -874,19 +867,73 @@ def _build(ctx):
       raise AnalysisError(f"anchor class {need} is not a CSTTransformer")
   m.ms = mod.func("merge_sources")
   m.mc = mod.func("_merge_csts")
-  m.rd_ms = rd = ReachingDefs(mod, m.ms)
   for fn, need in ((m.ms, {"py", "pyi"}), (m.mc, {"py_tree", "pyi_tree"})):
     have = {a.arg for a in fn.args.args + fn.args.kwonlyargs}
     if have != need:
       raise AnalysisError(f"{fn.name}: parameters {sorted(have)}, expected {sorted(need)}")
-  m.call = _one(calls_in(m.ms, name="_merge_csts"), "call of _merge_csts in merge_sources")
+  refs = [n for n in ast.walk(mod.tree) if isinstance(n, ast.Name) and n.id == m.mc.name]
+  calls = [c for c in ast.walk(mod.tree) if isinstance(c, ast.Call) and c.func in refs]
+  if len(refs) != len(calls):
+    raise AnalysisError(f"{m.mc.name} is referenced without being called: aliasing is not tracked")
+  # the one place (merge_sources itself or a helper it calls) that starts the merge
+  m.call = _one(calls, f"call of {m.mc.name} in {MP}")
   m.args = bind_args(m.call, m.mc)
   if set(m.args) != {"py_tree", "pyi_tree"}:
     raise AnalysisError("merge_sources: _merge_csts is not given both trees")
-  m.pyi_base, m.pyi_steps = _chain(mod, rd, m.args["pyi_tree"])
-  m.py_base, m.py_steps = _chain(mod, rd, m.args["py_tree"])
   _wire(ctx, m)
   return m
+
+
+class _Pipeline:
+  """What a model run of merge_sources with abstract visits (see
+  rules/_util_c20.py) shows: which tree reaches _merge_csts through which
+  visits, and what is returned."""
+
+  def __init__(self, ctx):
+    from rules import _util_c20 as mx
+    m = _model(ctx)
+    self.mx = mx
+    self.it = it = mx._Interp(ctx, abstract_visits=True)
+    texts = {p: mx._Source(mx._N("Module", body=[], header=[], footer=[]), p)
+             for p in ("py", "pyi")}
+    try:
+      self.returned = it.call(m.ms, None, [], texts)
+    except RecursionError as e:
+      raise AnalysisError("model execution of merge_sources: recursion too deep") from e
+    if it.captured is None or it.captured_call is not m.call:
+      raise AnalysisError(
+          f"model execution of merge_sources: the call of {m.mc.name} was not reached")
+    if it.branches:
+      raise AnalysisError(
+          "merge_sources: which visitors the trees pass on their way to "
+          f"{m.mc.name} depends on run-time tests ({'; '.join(it.branches[:3])}): only a "
+          "pipeline without branches is decided")
+    self.pyi = it.captured["pyi_tree"]
+    self.py = it.captured["py_tree"]
+
+  def tree(self, v):
+    return isinstance(v, self.mx._N)
+
+  def describe(self, v):
+    """('text the tree was parsed from' | description, [visitor classes applied])."""
+    it = self.it
+    if isinstance(v, self.mx._Code):
+      root, steps = self.describe(v.of)
+      return root, steps + ["code"]
+    if isinstance(v, self.mx._Merged):
+      return "_merge_csts(..)", []
+    if not self.tree(v):
+      return repr(v), []
+    root = it.root_of(v)
+    return (f"parse_module({root})" if root else "<unknown tree>",
+            [ev["obj"].cname for ev in it.chain_of(v)])
+
+  def read_only_visits(self):
+    return [ev for ev in self.it.events if ev["kind"] == "visitor"]
+
+
+def _pipeline(ctx):
+  return ctx.memo(("c20", "pipeline"), lambda: _Pipeline(ctx))
 
 
 def _ctor_of(m, rd, expr):
@@ -931,76 +978,58 @@ def _visit_step(m, rd, step):
   return (ctor.func.id, ctor) if ctor is not None else None
 
 
-def _rewriting(m, rd, steps, what):
-  """The steps of a chain that can change the tree: [(class, ctor, visit call)].
-  A `.visit(<read-only visitor>)` step yields the receiver itself and is
-  dropped (recorded by the caller); a step that is not understood is an
-  AnalysisError."""
-  out, readonly = [], []
-  for s in steps:
-    vs = _visit_step(m, rd, s)
-    if vs is None:
-      raise AnalysisError(
-          f"merge_sources: the {what} goes through a step that is not "
-          f".visit(<instance of a local visitor/transformer class>): "
-          f"{[x[0] for x in steps]}")
-    if m.kinds[vs[0]] == "visitor":
-      readonly.append(vs[0])
-    else:
-      out.append((vs[0], vs[1], s[1]))
-  return out, readonly
-
-
 # -- R20.1 ---------------------------------------------------------------------------
 
 @rule("R20.1", "C20", floor=5)
 def r20_1(ctx):
   """Filters on the pyi path, nothing on the py path, result = merged.code."""
   m = _model(ctx)
-  mod, rd = m.mod, m.rd_ms
-  if not _is_parse_of(mod, rd, m.pyi_base, "pyi"):
+  mod = m.mod
+  p = _pipeline(ctx)
+  it = p.it
+  for label, v in (("stub", p.pyi), ("source", p.py)):
+    if not p.tree(v):
+      raise AnalysisError(
+          f"merge_sources: the {label} tree handed to {m.mc.name} is {v!r}: it goes "
+          "through a step that is not .visit(<instance of a local visitor/transformer "
+          "class>)")
+  root, applied_all = p.describe(p.pyi)
+  if it.root_of(p.pyi) != "pyi":
     ctx.bad("merge_sources:pyi-tree-is-the-parsed-stub", MP, m.call.lineno,
             "the pyi_tree handed to _merge_csts is not built from "
-            "cst.parse_module(pyi)", {"base": src(m.pyi_base[1]) if m.pyi_base[0] != 'param' else m.pyi_base[1].name})
+            "cst.parse_module(pyi)", {"base": root, "steps": applied_all})
     return
-  rewriting, readonly = _rewriting(m, rd, m.pyi_steps, "pyi tree")
-  if readonly:
+  read_only = sorted({ev["obj"].cname for ev in p.read_only_visits()})
+  if read_only:
     _visitor_reference(ctx)
-  applied = [r[0] for r in rewriting]
+  applied = [ev["obj"].cname for ev in it.chain_of(p.pyi) if ev["kind"] == "transformer"]
   for need in REQUIRED_FILTERS:
     ctx.check(need in applied, f"merge_sources:pyi-tree-passes:{need}", MP,
               m.call.lineno,
               f"the stub tree reaches _merge_csts without passing {need} "
               f"(applied: {applied}); the annotations it removes (Any/Never, "
               "trivial literal types) would be merged into the source",
-              {"applied": applied, "read_only_steps": readonly})
-  py_ok = _is_parse_of(mod, rd, m.py_base, "py")
-  py_rewriting, py_readonly = ([], []) if not py_ok else _rewriting(
-      m, rd, m.py_steps, "py tree")
-  if py_readonly:
-    _visitor_reference(ctx)
+              {"applied": applied, "read_only_steps": read_only,
+               "pipeline": it.trace})
+  py_root, py_steps = p.describe(p.py)
+  py_ok = it.root_of(p.py) == "py"
+  py_rewriting = [ev["obj"].cname for ev in it.chain_of(p.py)]
   ctx.check(py_ok and not py_rewriting, "merge_sources:py-tree-untransformed", MP,
             m.call.lineno,
             "the py_tree handed to _merge_csts must be cst.parse_module(py) "
-            f"itself; found base {src(m.py_base[1]) if m.py_base[0] != 'param' else m.py_base[1].name} "
-            f"followed by {[s[0] for s in m.py_steps]}: any other transformer "
-            "on the source tree can change more than annotations",
-            {"steps": [s[0] for s in m.py_steps],
-             "rewriting": [r[0] for r in py_rewriting], "read_only_steps": py_readonly})
+            f"itself; found {py_root} followed by visits of {py_steps}: any "
+            "transformer on the source tree can change more than annotations",
+            {"base": py_root, "rewriting": py_rewriting,
+             "read_only_steps": sorted({ev["obj"].cname for ev in p.read_only_visits()
+                                        if it.root_of(ev["recv"]) == "py"})})
   rets = [n for n in walk_no_nested(m.ms) if isinstance(n, ast.Return)]
   if not rets:
     raise AnalysisError("merge_sources has no return")
-  ok = True
-  shown = []
-  for r in rets:
-    base, steps = _chain(mod, rd, r.value)
-    shown.append((src(base[1]) if base[0] != "param" else base[1].name,
-                  [s[0] for s in steps]))
-    ok = ok and base[0] == "call" and base[1] is m.call \
-        and [(s[0], s[1] is None) for s in steps] == [("code", True)]
+  shown = p.describe(p.returned)
+  ok = isinstance(p.returned, p.mx._Code) and p.returned.of is it.merged
   ctx.check(ok, "merge_sources:returns-merged-code", MP, rets[0].lineno,
             f"merge_sources returns {shown}; it must be exactly the `.code` of "
-            "the tree returned by _merge_csts", {"returned": [list(x) for x in shown]})
+            "the tree returned by _merge_csts", {"returned": [shown[0], shown[1]]})
   # _merge_csts wiring
   fn = m.mc
   rdc = ReachingDefs(mod, fn)
@@ -1160,10 +1189,344 @@ def _nth(seen, construct):
   return construct if k == 1 else f"{construct}#{k}"
 
 
-def _root_name(expr):
+def _root_node(expr):
   while isinstance(expr, ast.Attribute):
     expr = expr.value
-  return expr.id if isinstance(expr, ast.Name) else None
+  return expr if isinstance(expr, ast.Name) else None
+
+
+def _root_name(expr):
+  r = _root_node(expr)
+  return r.id if r is not None else None
+
+
+def _is_static(fn):
+  """@staticmethod helpers take no instance; other decorators are not modelled."""
+  decos = [dotted(d.func if isinstance(d, ast.Call) else d) or src(d)
+           for d in fn.decorator_list]
+  if not decos:
+    return False
+  if decos == ["staticmethod"]:
+    return True
+  raise AnalysisError(f"{fn.name}: decorator(s) {decos} are not modelled")
+
+
+def _typeable(typer, fn, subj, env):
+  """Does the rule speak about this isinstance subject?  Yes when its root is
+  a parameter with a known static type, or a local of the function (typed by
+  its reaching definitions - an AnalysisError when that fails); no for `self`,
+  parameters of unknown type and names of the module."""
+  r = _root_node(subj)
+  if r is None:
+    return False
+  if r.id in env:
+    return True
+  if typer.rd is None or r.id in typer.rd.params:
+    return False
+  return bool(typer.rd.defs_of(r))
+
+
+class _Res:
+  """What is known about one helper method for one assignment of static types
+  to its parameters."""
+
+  def __init__(self, fn, penv, typer):
+    self.fn, self.penv, self.typer = fn, penv, typer
+    self.possible = False     # some path can return a true value
+    self.falls = False        # control can fall off the end (returns None)
+    self.dead = []            # tests that cannot hold, as text
+    self.live_returns = []
+    self.tests = []           # (index, text, line, static type shown, can hold)
+    self.nested = []
+    self._ret = None
+
+  def total_tests(self, seen=None):
+    seen = seen if seen is not None else set()
+    if id(self) in seen:
+      return 0
+    seen.add(id(self))
+    return len(self.tests) + sum(r.total_tests(seen) for r in self.nested)
+
+  def ret_type(self):
+    """Join of the static types of the values the live returns hand back."""
+    if self._ret is None:
+      out = frozenset(["None"]) if self.falls else frozenset()
+      for r in self.live_returns:
+        if r.value is None:
+          out |= {"None"}
+        else:
+          out |= self.typer.type_of(r.value, self.typer.narrow_at(r.value))
+      self._ret = out
+    return self._ret
+
+
+class _Inter:
+  """Typing across the helper methods (everything that is not a libcst
+  callback) of one visitor/transformer class: a helper is analysed once per
+  assignment of static types to its parameters - which of its isinstance tests
+  can hold, which branches are dead for these types, whether a true value can
+  come back, and the join of the types it can return."""
+
+  def __init__(self, model, mod, cname, methods, kind):
+    self.model, self.mod, self.cname = model, mod, cname
+    self.methods, self.kind = methods, kind
+    self.memo = {}
+    self.active = []
+    self.liveness = {}      # (helper name, test index) -> record
+    self.site = "?"
+    self._local = set(_local_mro(mod, cname))
+
+  def helper_of(self, call, caller):
+    """The helper method `self.H(..)` / `<class of the module>.H(..)` written
+    inside `caller` calls, or None."""
+    d = dotted(call.func) or ""
+    if d.count(".") != 1:
+      return None
+    head, name = d.split(".")
+    if name not in self.methods:
+      return None
+    ps = caller.args.posonlyargs + caller.args.args
+    is_self = bool(ps) and head == ps[0].arg and not caller.decorator_list
+    if not is_self and head not in self._local:
+      return None
+    h = self.methods[name]
+    if _method_env(self.model, self.mod, h, self.kind) is not None:
+      return None           # a callback, not a helper
+    if not is_self and not _is_static(h):
+      return None
+    return h
+
+  def _matters(self, h, p):
+    """Can the (unknown) type of parameter p of h change a verdict?  It can
+    when p, or a local computed from it, is the subject of an isinstance test
+    on a libcst class or is handed to another helper."""
+    tainted = {p}
+    changed = True
+    while changed:
+      changed = False
+      for n in ast.walk(h):
+        value, targets = None, []
+        if isinstance(n, ast.Assign):
+          value, targets = n.value, n.targets
+        elif isinstance(n, (ast.AnnAssign, ast.AugAssign)) and n.value is not None:
+          value, targets = n.value, [n.target]
+        elif isinstance(n, ast.NamedExpr):
+          value, targets = n.value, [n.target]
+        elif isinstance(n, (ast.For, ast.comprehension)):
+          value, targets = n.iter, [n.target]
+        if value is None or not any(isinstance(x, ast.Name) and x.id in tainted
+                                    for x in ast.walk(value)):
+          continue
+        for t in targets:
+          for x in ast.walk(t):
+            if isinstance(x, ast.Name) and x.id not in tainted:
+              tainted.add(x.id)
+              changed = True
+    probe = Typer(self.model, self.mod, {})
+    if any(_root_name(subj) in tainted for _, subj, _ in _isinstance_tests(probe, h)):
+      return True
+    for c in calls_in(h):
+      if self.helper_of(c, h) is not None and any(
+          isinstance(x, ast.Name) and x.id in tainted
+          for a in list(c.args) + [k.value for k in c.keywords] for x in ast.walk(a)):
+        return True
+    return False
+
+  def arg_types(self, typer, call, h, narrow):
+    """(parameter -> argument expr, parameter -> static type) at a call of h;
+    an argument that cannot be typed is left out unless its type matters."""
+    bound = bind_args(call, h, skip_self=not _is_static(h))
+    penv = {}
+    for p, a in bound.items():
+      try:
+        penv[p] = typer.type_of(a, narrow)
+      except AnalysisError:
+        if self._matters(h, p):
+          raise
+    return bound, penv
+
+  def analyse(self, h, penv):
+    key = (h.name, tuple(sorted(penv.items(), key=lambda kv: kv[0])))
+    res = self.memo.get(key)
+    if res is None:
+      if key in self.active:
+        raise AnalysisError(f"{self.cname}.{h.name} is recursive: not modelled")
+      self.active.append(key)
+      try:
+        res = self._analyse(h, penv)
+      finally:
+        self.active.pop()
+      self.memo[key] = res
+    for i, text, line, shown, alive in res.tests:
+      rec = self.liveness.setdefault((h.name, i), {
+          "test": text, "line": line, "alive": False, "sites": []})
+      rec["alive"] = rec["alive"] or alive
+      site = f"{self.site}: {shown}"
+      if site not in rec["sites"]:
+        rec["sites"].append(site)
+    return res
+
+  def _analyse(self, h, penv):
+    model = self.model
+    ptyper = Typer(model, self.mod, penv, h, inter=self)
+    res = _Res(h, penv, ptyper)
+    all_tests = _isinstance_tests(ptyper, h)
+    tests = {id(c): (subj, names) for c, subj, names in all_tests
+             if _typeable(ptyper, h, subj, penv)}
+    dead = res.dead
+
+    def kill(stmts):
+      ptyper.dead |= {id(x) for b in stmts for x in ast.walk(b)}
+      ptyper._assumed.clear()
+
+    def helper_result(e):
+      h2 = self.helper_of(e, h) if isinstance(e, ast.Call) else None
+      if h2 is None:
+        return None
+      _, penv2 = self.arg_types(ptyper, e, h2, ptyper.narrow_at(e))
+      r2 = self.analyse(h2, penv2)
+      if r2 not in res.nested:
+        res.nested.append(r2)
+      return r2
+
+    def local_value(e):
+      """The expression a once-bound local holds (its only reaching definition)."""
+      if isinstance(e, ast.Name) and e.id not in ptyper.rd.params:
+        ds = [d for d in ptyper.rd.defs_of(e) if id(d.node) not in ptyper.dead]
+        if len(ds) == 1 and ds[0].kind in ("assign", "walrus") and not ds[0].path:
+          return ds[0].value
+      return None
+
+    def can_true(e, depth=0):
+      if isinstance(e, ast.BoolOp):
+        vs = [can_true(v, depth) for v in e.values]
+        return all(vs) if isinstance(e.op, ast.And) else any(vs)
+      if isinstance(e, ast.UnaryOp) and isinstance(e.op, ast.Not):
+        return can_false(e.operand, depth)
+      if isinstance(e, ast.Constant):
+        return bool(e.value)
+      if isinstance(e, ast.IfExp):
+        return (can_true(e.test, depth) and can_true(e.body, depth)) or \
+            (can_false(e.test, depth) and can_true(e.orelse, depth))
+      if id(e) in tests:
+        subj, names = tests[id(e)]
+        # the subject is typed where the test stands: a name re-bound on the
+        # way (`while isinstance(p, A): p = p.value`) has the join of the
+        # types of the values assigned to it
+        t = ptyper.type_of(subj, ptyper.narrow_at(e))
+        ok = any(model.can_be(t, k) for k in names)
+        if not ok:
+          dead.append(f"isinstance({src(subj)}, {'/'.join(names)}) sees a {show(t)}")
+        return ok
+      if isinstance(e, ast.Call) and isinstance(e.func, ast.Name) and e.func.id == "bool" \
+          and len(e.args) == 1 and not e.keywords and ptyper._is_builtin(e.func):
+        return can_true(e.args[0], depth)
+      r2 = helper_result(e)
+      if r2 is not None:
+        if r2.total_tests() and not r2.possible:
+          dead.extend(f"{r2.fn.name}(..): {x}" for x in r2.dead)
+          return False
+        return True
+      v = local_value(e) if depth < 5 else None
+      if v is not None:
+        return can_true(v, depth + 1)
+      return True
+
+    def can_false(e, depth=0):
+      if isinstance(e, ast.BoolOp):
+        vs = [can_false(v, depth) for v in e.values]
+        return any(vs) if isinstance(e.op, ast.And) else all(vs)
+      if isinstance(e, ast.UnaryOp) and isinstance(e.op, ast.Not):
+        return can_true(e.operand, depth)
+      if isinstance(e, ast.Constant):
+        return not bool(e.value)
+      if isinstance(e, ast.IfExp):
+        return (can_true(e.test, depth) and can_false(e.body, depth)) or \
+            (can_false(e.test, depth) and can_false(e.orelse, depth))
+      v = local_value(e) if depth < 5 else None
+      if v is not None:
+        return can_false(v, depth + 1)
+      return True
+
+    def block(stmts):
+      """(a true value can be returned, control can fall through)."""
+      found = False
+      for k, st in enumerate(stmts):
+        if isinstance(st, ast.Return):
+          res.live_returns.append(st)
+          kill(stmts[k + 1:])
+          return found or (st.value is not None and can_true(st.value)), False
+        if isinstance(st, ast.Raise):
+          kill(stmts[k + 1:])
+          return found, False
+        if isinstance(st, ast.If):
+          t_ok, f_ok = can_true(st.test), can_false(st.test)
+          for blk, live in ((st.body, t_ok), (st.orelse, f_ok)):
+            if not live:
+              kill(blk)
+          r1, f1 = block(st.body) if t_ok else (False, False)
+          r2, f2 = block(st.orelse) if f_ok else (False, False)
+          found = found or r1 or r2
+          if not (f1 or f2):
+            kill(stmts[k + 1:])
+            return found, False
+        elif isinstance(st, (ast.While, ast.For)):
+          if not isinstance(st, ast.While) or can_true(st.test):
+            found = block(st.body)[0] or found
+          else:
+            kill(st.body)
+          found = block(st.orelse)[0] or found
+        elif isinstance(st, (ast.With, ast.Try, ast.Match, ast.AsyncWith, ast.AsyncFor)):
+          raise AnalysisError(f"{h.name}: with/try/match in a helper is not modelled")
+      return found, True
+
+    res.possible, res.falls = block(h.body)
+    ptyper._assumed.clear()
+    # helpers called for their value only (`x = self._strip(..)`) count as well
+    for c in sorted(calls_in(h), key=lambda c: (c.lineno, c.col_offset)):
+      if id(c) not in ptyper.dead:
+        helper_result(c)
+    for i, (c, subj, names) in enumerate(all_tests):
+      if id(c) not in tests:
+        continue
+      text = f"isinstance({src(subj)}, {'/'.join(names)})"
+      if id(c) in ptyper.dead:
+        res.tests.append((i, text, c.lineno, "<unreachable for these argument types>", False))
+        continue
+      t = ptyper.type_of(subj, ptyper.narrow_at(c))
+      res.tests.append((i, text, c.lineno, show(t), any(model.can_be(t, k) for k in names)))
+    return res
+
+
+class _ClassAnalysis:
+  """The callbacks of one visitor/transformer class, typed, and the helper
+  methods they reach (transitively), analysed per call site."""
+
+  def __init__(self, ctx, m, cname):
+    mod, model = m.mod, _cst(ctx)
+    self.methods = _methods(mod, cname)
+    kind = m.kinds[cname]
+    self.inter = inter = _Inter(model, mod, cname, self.methods, kind)
+    self.callbacks = []     # (method name, def, parameter types, Typer)
+    self.sites = []         # (callback name, call, helper def, bound, penv, _Res)
+    for mname, fn in sorted(self.methods.items()):
+      env = _method_env(model, mod, fn, kind)
+      if env is None:
+        continue
+      typer = Typer(model, mod, env, fn, inter=inter)
+      self.callbacks.append((mname, fn, env, typer))
+      inter.site = mname
+      for call in sorted(calls_in(fn), key=lambda c: (c.lineno, c.col_offset)):
+        h = inter.helper_of(call, fn)
+        if h is None:
+          continue
+        bound, penv = inter.arg_types(typer, call, h, typer.narrow_at(call))
+        self.sites.append((mname, call, h, bound, penv, inter.analyse(h, penv)))
+
+
+def _class_analysis(ctx, cname):
+  return ctx.memo(("c20", "class-analysis", cname),
+                  lambda: _ClassAnalysis(ctx, _model(ctx), cname))
 
 
 @rule("R20.3", "C20", floor=5)
@@ -1172,19 +1535,14 @@ def r20_3(ctx):
   m = _model(ctx)
   mod, model = m.mod, _cst(ctx)
   n = 0
-  liveness = {}
-  for cname, cdef in sorted(m.classes.items()):
-    methods = _methods(mod, cname)
-    # call sites of helper predicates: self.<pred>(..) inside callbacks
-    for mname, fn in sorted(methods.items()):
-      env = _method_env(model, mod, fn, m.kinds[cname])
-      if env is None:
-        continue
-      typer = Typer(model, mod, env, fn)
-      # isinstance tests written directly in the callback
-      keys = {}
+  for cname in sorted(m.classes):
+    an = _class_analysis(ctx, cname)
+    keys_of = {}
+    # isinstance tests written directly in a callback
+    for mname, fn, env, typer in an.callbacks:
+      keys = keys_of.setdefault(mname, {})
       for c, subj, names in _isinstance_tests(typer, fn):
-        if _root_name(subj) not in env:
+        if not _typeable(typer, fn, subj, env):
           continue
         t = typer.type_of(subj, typer.narrow_at(c))
         n += 1
@@ -1194,119 +1552,29 @@ def r20_3(ctx):
                   f"{src(subj)} has static type {show(t)} and can never be a "
                   f"{'/'.join(names)}: the test is always false",
                   {"static_type": show(t), "tested": names})
-      for call in calls_in(fn):
-        d = dotted(call.func) or ""
-        if not d.startswith("self.") or d.count(".") != 1 or d[5:] not in methods:
-          continue
-        pred = methods[d[5:]]
-        if _method_env(model, mod, pred, m.kinds[cname]) is not None:
-          continue
-        bound = bind_args(call, pred, skip_self=True)
-        cnarrow = typer.narrow_at(call)
-        penv = {}
-        for p, a in bound.items():
-          try:
-            penv[p] = typer.type_of(a, cnarrow)
-          except AnalysisError:
-            if any(_root_name(s) == p for _, s, _ in _isinstance_tests(
-                Typer(model, mod, {}), pred)):
-              raise
-        ptyper = Typer(model, mod, penv, pred)
-        tests = {id(c): (subj, names) for c, subj, names in _isinstance_tests(ptyper, pred)
-                 if _root_name(subj) in penv}
-        if not tests:
-          continue
-        dead = []
-
-        def can_true(e):
-          if isinstance(e, ast.BoolOp):
-            vs = [can_true(v) for v in e.values]
-            return all(vs) if isinstance(e.op, ast.And) else any(vs)
-          if isinstance(e, ast.UnaryOp) and isinstance(e.op, ast.Not):
-            return can_false(e.operand)
-          if isinstance(e, ast.Constant):
-            return bool(e.value)
-          if id(e) in tests:
-            subj, names = tests[id(e)]
-            # the subject is typed where the test stands: a parameter re-bound
-            # on the way (`while isinstance(p, A): p = p.value`) has the join of
-            # the types of the values assigned to it
-            t = ptyper.type_of(subj, ptyper.narrow_at(e))
-            ok = any(model.can_be(t, k) for k in names)
-            if not ok:
-              dead.append(f"isinstance({src(subj)}, {'/'.join(names)}) sees a {show(t)}")
-            return ok
-          return True
-
-        def can_false(e):
-          if isinstance(e, ast.BoolOp):
-            vs = [can_false(v) for v in e.values]
-            return any(vs) if isinstance(e.op, ast.And) else all(vs)
-          if isinstance(e, ast.UnaryOp) and isinstance(e.op, ast.Not):
-            return can_true(e.operand)
-          if isinstance(e, ast.Constant):
-            return not bool(e.value)
-          return True
-
-        def block(stmts):
-          """(a true value can be returned, control can fall through)."""
-          found = False
-          for st in stmts:
-            if isinstance(st, ast.Return):
-              return found or (st.value is not None and can_true(st.value)), False
-            if isinstance(st, ast.Raise):
-              return found, False
-            if isinstance(st, ast.If):
-              t_ok, f_ok = can_true(st.test), can_false(st.test)
-              for blk, live in ((st.body, t_ok), (st.orelse, f_ok)):
-                if not live:
-                  ptyper.dead |= {id(x) for b in blk for x in ast.walk(b)}
-                  ptyper._assumed.clear()
-              r1, f1 = block(st.body) if t_ok else (False, False)
-              r2, f2 = block(st.orelse) if f_ok else (False, False)
-              found = found or r1 or r2
-              if not (f1 or f2):
-                return found, False
-            elif isinstance(st, (ast.While, ast.For)):
-              if not isinstance(st, ast.While) or can_true(st.test):
-                found = block(st.body)[0] or found
-              else:
-                ptyper.dead |= {id(x) for b in st.body for x in ast.walk(b)}
-                ptyper._assumed.clear()
-              found = block(st.orelse)[0] or found
-            elif isinstance(st, (ast.With, ast.Try)):
-              raise AnalysisError(f"{pred.name}: with/try in a predicate is not modelled")
-          return found, True
-
-        possible, _ = block(pred.body)
-        n += 1
-        fresh = Typer(model, mod, penv, pred)
-        for i, (c_, subj_, names_) in enumerate(_isinstance_tests(fresh, pred)):
-          if _root_name(subj_) not in penv:
-            continue
-          t_ = fresh.type_of(subj_, fresh.narrow_at(c_))
-          rec = liveness.setdefault((cname, pred.name, i), {
-              "test": f"isinstance({src(subj_)}, {'/'.join(names_)})", "line": c_.lineno,
-              "alive": False, "sites": []})
-          rec["alive"] = rec["alive"] or any(model.can_be(t_, k) for k in names_)
-          rec["sites"].append(f"{mname}: {show(t_)}")
-        arg = ", ".join(f"{p_}={src(a_)}" for p_, a_ in sorted(bound.items()))
-        ctx.check(possible, _nth(keys, f"{cname}.{pred.name}@{mname}:can-be-true"),
-                  MP, call.lineno,
-                  f"{mname} calls {pred.name}({arg}) with static argument types "
-                  f"{ {p_: show(t_) for p_, t_ in sorted(penv.items())} } (from the libcst "
-                  f"field declarations): no path of {pred.name} can return a true "
-                  f"value ({'; '.join(sorted(set(dead))) or 'every returned value is false'}), "
-                  "so the filter never fires and the annotation is merged",
-                  {"arguments": arg, "dead_tests": sorted(set(dead))})
-  # a test of a shared predicate that no caller can ever satisfy is dead code:
-  # the arm it guards (a disjunct of the filter) never applies
-  for (cname, pname, i), rec in sorted(liveness.items()):
-    n += 1
-    ctx.check(rec["alive"], f"{cname}.{pname}:test#{i}:live-for-some-caller", MP, rec["line"],
-              f"{rec['test']} in {pname} can never be true for any caller "
-              f"({'; '.join(rec['sites'])}): the arm of the filter it guards never applies",
-              {"test": rec["test"], "callers": rec["sites"]})
+    # call sites of helper predicates: self.<pred>(..) inside callbacks
+    for mname, call, pred, bound, penv, res in an.sites:
+      if not res.total_tests():
+        continue
+      keys = keys_of.setdefault(mname, {})
+      n += 1
+      arg = ", ".join(f"{p_}={src(a_)}" for p_, a_ in sorted(bound.items()))
+      ctx.check(res.possible, _nth(keys, f"{cname}.{pred.name}@{mname}:can-be-true"),
+                MP, call.lineno,
+                f"{mname} calls {pred.name}({arg}) with static argument types "
+                f"{ {p_: show(t_) for p_, t_ in sorted(penv.items())} } (from the libcst "
+                f"field declarations): no path of {pred.name} can return a true "
+                f"value ({'; '.join(sorted(set(res.dead))) or 'every returned value is false'}), "
+                "so the filter never fires and the annotation is merged",
+                {"arguments": arg, "dead_tests": sorted(set(res.dead))})
+    # a test of a shared helper that no caller can ever satisfy is dead code:
+    # the arm it guards (a disjunct of the filter) never applies
+    for (pname, i), rec in sorted(an.inter.liveness.items()):
+      n += 1
+      ctx.check(rec["alive"], f"{cname}.{pname}:test#{i}:live-for-some-caller", MP, rec["line"],
+                f"{rec['test']} in {pname} can never be true for any caller "
+                f"({'; '.join(rec['sites'])}): the arm of the filter it guards never applies",
+                {"test": rec["test"], "callers": rec["sites"]})
   if not n:
     raise AnalysisError("no isinstance test on a libcst class found in the filters")
 
@@ -1322,11 +1590,20 @@ def r20_4(ctx):
   """Who may transform: local transformers run on the stub chain only."""
   m = _model(ctx)
   mod = m.mod
-  rd = m.rd_ms
-  rewriting, _ = _rewriting(m, rd, m.pyi_steps, "pyi tree")
-  chain_visits = {r[2] for r in rewriting}
-  on_chain = {r[1] for r in rewriting}
-  rds = {m.ms: rd}
+  p = _pipeline(ctx)
+  it = p.it
+  # the visits that made the tree handed to _merge_csts(pyi_tree=) out of the
+  # parsed stub (model run of merge_sources, see _Pipeline)
+  chain = it.chain_of(p.pyi) if p.tree(p.pyi) and it.root_of(p.pyi) == "pyi" else []
+  on_chain = {id(ev) for ev in chain}
+  by_obj, by_call = {}, {}
+  for ev in it.events:
+    by_obj.setdefault(id(ev["obj"]), []).append(ev)
+    by_call.setdefault(ev["call"], []).append(ev)
+  by_ctor = {}
+  for o in it.created:
+    by_ctor.setdefault(o.ctor, []).append(o)
+  rds = {}
 
   def rd_of(node):
     fn = mod.enclosing_function(node)
@@ -1336,19 +1613,38 @@ def r20_4(ctx):
       rds[fn] = ReachingDefs(mod, fn)
     return rds[fn]
 
+  def instance_on_chain(ctor):
+    """Every instance this `K(..)` made in the model run visited the stub on
+    its way to _merge_csts, and nothing else."""
+    objs = by_ctor.get(ctor)
+    if not objs:
+      return False      # not executed by merge_sources at all
+    for o in objs:
+      evs = by_obj.get(id(o), [])
+      if not evs or not all(id(ev) in on_chain for ev in evs):
+        return False
+    return True
+
   # `.visit(v)` with v an instance of a read-only visitor class returns the
   # receiver unchanged whatever the receiver is: not a rewrite
-  read_only_visits = {}
+  read_only_visits, chain_visits = {}, set()
   for c in ast.walk(mod.tree):
-    if isinstance(c, ast.Call) and isinstance(c.func, ast.Attribute) \
-        and c.func.attr == "visit" and c not in chain_visits:
-      try:
-        vs = _visit_step(m, rd_of(c), ("visit", c))
-      except AnalysisError:
-        vs = None
-      if vs is not None and m.kinds[vs[0]] == "visitor":
-        read_only_visits[c] = vs
-  visited_instances = {vs[1] for vs in read_only_visits.values()}
+    if not (isinstance(c, ast.Call) and isinstance(c.func, ast.Attribute)
+            and c.func.attr == "visit"):
+      continue
+    evs = by_call.get(c)
+    if evs:
+      if all(ev["kind"] == "visitor" for ev in evs):
+        read_only_visits[c] = sorted({ev["obj"].cname for ev in evs})[0]
+      elif all(ev["kind"] == "visitor" or id(ev) in on_chain for ev in evs):
+        chain_visits.add(c)
+      continue
+    try:      # not executed by merge_sources: judged where it stands
+      vs = _visit_step(m, rd_of(c), ("visit", c))
+    except AnalysisError:
+      vs = None
+    if vs is not None and m.kinds[vs[0]] == "visitor":
+      read_only_visits[c] = vs[0]
   for cname in sorted(m.classes):
     made = [c for c in ast.walk(mod.tree) if isinstance(c, ast.Call)
             and isinstance(c.func, ast.Name) and c.func.id == cname]
@@ -1367,10 +1663,11 @@ def r20_4(ctx):
       ref = _visitor_reference(ctx)
       ctx.ok(f"{cname}:read-only-visitor", MP, mod.cls(cname).lineno,
              {"instantiations": len(made),
-              "passed_to_visit": len([c for c in made if c in visited_instances]),
+              "passed_to_visit": len([c for c in made if any(
+                  by_obj.get(id(o)) for o in by_ctor.get(c, ()))]),
               "libcst": ref})
       continue
-    stray = [c for c in made if c not in on_chain]
+    stray = [c for c in made if not instance_on_chain(c)]
     if not made and cname in REQUIRED_FILTERS:
       stray = [mod.cls(cname)]
     ctx.check(not stray, f"{cname}:instantiated-on-stub-chain-only", MP,
@@ -1392,8 +1689,8 @@ def r20_4(ctx):
             "the single transform_module(py_tree) of _merge_csts may rewrite a tree",
             {"known": len(known), "extra": extra,
              "read_only_visits": sorted(
-                 f"{src(c.func.value)}.visit({vs[0]})"
-                 for c, vs in read_only_visits.items())})
+                 f"{src(c.func.value)}.visit({k})"
+                 for c, k in read_only_visits.items())})
   if ctx.tier == "thorough":
     hits = []
     for rel in all_py_files(ctx):
